@@ -72,3 +72,84 @@ func swallowedLookupErrors(fx *Facts, fn *ssa.Function) ([]RetPath, int) {
 	}
 	return bad, n
 }
+
+// swallowedCallErrors: the function reports success — returns the literal nil error — on a path on which a call it
+// made returned a non-nil error, and no recognised excuse (IsNotFound / IsAlreadyExists / IsConflict / errors.Is on
+// that error) was established. A return of a computed error (a wrapped error, errors.Join of collected errors) is not
+// a success report and is not looked at. Returns the offending returns with the swallowed error's term in Desc.
+func swallowedCallErrors(fx *Facts, fn *ssa.Function) []RetPath {
+	res := fn.Signature.Results()
+	if res.Len() == 0 || !types.Identical(res.At(res.Len()-1).Type(), errorType) {
+		return nil
+	}
+	idx := res.Len() - 1
+	swallowedIn := func(fs FactSet) string {
+		if fs.Bottom {
+			return ""
+		}
+		for _, f := range fs.sorted() {
+			if f.T.Op != "bin" || len(f.T.Args) != 2 || !f.T.Args[1].isNilConst() || !((f.T.Name == "!=" && f.Pol) || (f.T.Name == "==" && !f.Pol)) {
+				continue
+			}
+			e := f.T.Args[0]
+			if e.V == nil || !types.Identical(e.V.Type(), errorType) {
+				continue
+			}
+			src := e.V
+			if ex, ok := src.(*ssa.Extract); ok {
+				src = ex.Tuple
+			}
+			if _, isCall := src.(*ssa.Call); !isCall {
+				continue
+			}
+			errTerm := e.String()
+			_, excused := hasFact(fs, func(g Fact) bool {
+				if !g.Pol || g.T.Op != "call" || len(g.T.Args) < 1 {
+					return false
+				}
+				for _, n := range []string{"IsNotFound", "IsAlreadyExists", "IsConflict", "Is"} {
+					if isCallNamed(g.T, n) && g.T.Args[0].String() == errTerm {
+						return true
+					}
+				}
+				return false
+			})
+			if !excused {
+				return errTerm
+			}
+		}
+		return ""
+	}
+	var bad []RetPath
+	for _, b := range fn.Blocks {
+		ret, ok := b.Instrs[len(b.Instrs)-1].(*ssa.Return)
+		if !ok || idx >= len(ret.Results) {
+			continue
+		}
+		switch v := unspill(ret, idx).(type) {
+		case *ssa.Const:
+			if !v.IsNil() {
+				continue
+			}
+			for _, fs := range fx.pathFactsTo(b, 3) {
+				if t := swallowedIn(fs); t != "" {
+					bad = append(bad, RetPath{Facts: fs, Pos: ret.Pos(), Desc: t})
+					break
+				}
+			}
+		case *ssa.Phi:
+			for i, e := range v.Edges {
+				k, isC := e.(*ssa.Const)
+				if !isC || !k.IsNil() || i >= len(v.Block().Preds) {
+					continue
+				}
+				fs := fx.edgeFacts(v.Block().Preds[i], v.Block(), 0)
+				if t := swallowedIn(fs); t != "" {
+					bad = append(bad, RetPath{Facts: fs, Pos: ret.Pos(), Desc: t})
+					break
+				}
+			}
+		}
+	}
+	return bad
+}
